@@ -800,7 +800,9 @@ def _transaction_round(checker, rng, network, all_bits=False):
 		signer_start = layout.signer[0]
 	safe_bits = [8 * byte + bit for first, last in safe for byte in range(first, last) for bit in range(8)]
 	if all_bits:
-		positions = range(8 * len(signed_buffer))
+		# every bit of the fixed-layout covered fields and of the signer key; the signature field is sampled (it is not covered)
+		signature_bits = set(range(8 * (8 if 'nem' != network else 52), 8 * (72 if 'nem' != network else 116)))
+		positions = sorted((set(safe_bits) - signature_bits) | set(rng.sample(sorted(signature_bits), 16)))
 	else:
 		positions = sorted(set(_sample_bits(rng, 8, 8 * len(signed_buffer))) | set(rng.sample(safe_bits, 8)))
 		if 'nem' != network:
@@ -851,7 +853,7 @@ def _transaction_round(checker, rng, network, all_bits=False):
 			transaction.cosignatures.append(removed)
 			ctx.count('object:multisig-less-cosignatures')
 
-	count = 512 if all_bits else 5
+	count = 5
 	bits = {
 		'R': range(256) if all_bits else _sample_bits(rng, count, 256), 'S': range(256) if all_bits else _sample_bits(rng, count, 256),
 		'key': range(256) if all_bits else _sample_bits(rng, count, 256), 'message': _sample_bits(rng, 3, 1 << 16)}
@@ -1000,10 +1002,10 @@ def run(ctx):
 	_raw_buffers(checker, rng)
 	checker.settle()
 	for network in ('symbol', 'nem'):
-		for _ in range(ctx.scale(36, 900)):
+		for _ in range(ctx.scale(44, 500)):
 			_transaction_round(checker, rng, network)
 			checker.settle()
-		for _ in range(ctx.scale(12, 400)):
+		for _ in range(ctx.scale(14, 300)):
 			_message_round(checker, rng, network)
 		checker.settle()
 	for _ in range(ctx.scale(8, 150)):
@@ -1012,7 +1014,7 @@ def run(ctx):
 	if ctx.thorough:
 		# every single-bit flip of transaction, signature and key for a number of signatures
 		for network in ('symbol', 'nem'):
-			for _ in range(25 if 'thorough' == ctx.tier else 3):
+			for _ in range(10 if 'thorough' == ctx.tier else 2):
 				_transaction_round(checker, rng, network, all_bits=True)
 				checker.settle()
 
